@@ -53,7 +53,7 @@ def main():
         if d.startswith(os.path.join(VERIF, "seeded")):
             dst = d
         else:
-            wave = "w2-" if "/mutout2-" in d else ""
+            wave = "w2-" if "/mutout2-" in d else ("w3-" if "/mutout3-" in d else "")
             dst = os.path.join(VERIF, "seeded", "%s-%s%s-%s" % (prop, wave, k, slug))
             os.makedirs(dst, exist_ok=True)
             for f in os.listdir(d):
